@@ -4,6 +4,7 @@ From InvokeVerif Require Export Corr.ParserCorr Spec.C18Spec.
 Record case := mk {
   c_cs : list ctxspec;
   c_groups : list (list string);
+  c_starts : list nat;        (* indices of the groups that are task names *)
   c_opt : list string;
   c_j : nat;
   c_flags : list string;
@@ -31,13 +32,20 @@ Definition corr (c : case) : bool :=
        (c_placed c).
 
 Definition spec (c : case) : bool :=
-  spec_ok (c_cs c) core_ctx (c_groups c) (c_opt c) (c_j c) (c_flags c) (c_rem c)
+  spec_ok (c_cs c) core_ctx (c_starts c) (c_groups c) (c_opt c) (c_j c) (c_flags c) (c_rem c)
           (c_base c) (c_front c) (c_placed c).
 
 (** the model judged by the spec (bounded sweeps) *)
+(** every single-token group that names a task counts as a task name here *)
+Definition all_starts (cs : list ctxspec) (groups : list (list string)) : list nat :=
+  flat_map (fun ig => match snd ig with
+                      | [t] => if is_task_name cs t then [fst ig] else []
+                      | _ => []
+                      end) (combine (seq 0 (List.length groups)) groups).
+
 Definition model_spec (cs : list ctxspec) (groups : list (list string)) (opt : list string)
            (j : nat) (flags : list string) (rem : option (list string)) : bool :=
-  spec_ok cs core_ctx groups opt j flags rem
+  spec_ok cs core_ctx (all_starts cs groups) groups opt j flags rem
           (model_program cs (base_argv groups))
           (model_program cs (front_argv groups opt))
           (model_program cs (placed_argv groups opt j rem)).
